@@ -47,6 +47,7 @@ fn script_of(cmd: &str, args: &[String]) -> String {
         "ls" => format!("h = glob_array \"{}/*\"\n", args[0]),
         "write_binary" => format!("h = string_to_bytes {}\no = write_binary_file {} ${{h}}\n", q[1], q[0]),
         "read_binary" => format!("h = read_binary_file {}\no = set ${{h}}\nif starts_with \"${{h}}\" handle:\no = bytes_to_string ${{h}}\nend\n", q[0]),
+        "rm2" => format!("o = rm {}\n", q.join(" ")),
         "cp_detour" | "mv_detour" => format!("o = {} \"d/../{}\" {}\n", &cmd[..2], args[0], q[0]),
         _ => format!("o = {} {}\n", cmd, q.join(" ")),
     }
@@ -168,6 +169,7 @@ pub fn record(args: &[String]) {
                 5 => ("write_binary", vec![p, "x".into()]),
                 6 => ("touch", vec![p]),
                 7 | 8 => ("mkdir", vec![p]),
+                9 if r.chance(1, 3) => ("rm2", vec![r.pick(&["a.txt", "n.txt"]).to_string(), p]),
                 9 => ("rm", vec![p]),
                 10 => ("rm", vec!["-r".into(), p]),
                 11 => ("rmdir", vec![p]),
